@@ -126,8 +126,8 @@ def handleVolFront (args : List String) : String :=
       let volPairs : Int → List (Int × Int) → Float := fun _ _ => 0.0
       let fuel := 2 * ids.length + 3
       match Proto.argInt args "acc", Proto.arg args "accs" with
-      | some acc, _ => showExcVF Proto.showFloat (get_volume_int volSphere volFrustum volSF volPairs mc fuel ids pids method acc)
-      | none, some accs => showExcVF Proto.showFloat (get_volume_str volSphere volFrustum volSF volPairs mc fuel ids pids method accs)
+      | some acc, _ => showExcVF Proto.showFloat (get_volume_int volSphere volFrustum volSF volPairs (fun _ => mc) fuel ids pids method acc)
+      | none, some accs => showExcVF Proto.showFloat (get_volume_str volSphere volFrustum volSF volPairs (fun _ => mc) fuel ids pids method accs)
       | none, none => "bad-args"
     | _, _, _, _, _, _, _, _ => "bad-args"
   | some "scene" =>
